@@ -55,6 +55,8 @@ type Contract struct {
 	Pos      string
 	Lit      *ast.FuncLit
 	Captured []string // closure contracts: names of captured variables (leading clause parameters)
+	RidxVar    map[int]string          // loop ordinal -> index variable of an index loop `for i := ...`: a clause written for a range loop names `ridx`
+	NameAlias  map[string]string       // recorded parameter / captured-variable name -> its name in the current tree (rename)
 	LocalAlias map[string]localBinding // locals named in loop clauses that the current tree no longer has under that name (rename): bound by type and ordinal
 
 	// filled by generator
@@ -925,6 +927,16 @@ func (g *genCtx) genContract(c *Contract, lp interface{}, out *strings.Builder) 
 				continue
 			}
 			ls := loops[k-1]
+			if fs, ok := ls.(*ast.ForStmt); ok && fs.Init != nil {
+				if as, ok := fs.Init.(*ast.AssignStmt); ok && as.Tok == token.DEFINE && len(as.Lhs) == 1 {
+					if id, ok := as.Lhs[0].(*ast.Ident); ok {
+						if c.RidxVar == nil {
+							c.RidxVar = map[int]string{}
+						}
+						c.RidxVar[k] = id.Name
+					}
+				}
+			}
 			for i, cl := range c.Loops[k] {
 				// free identifiers that are locals visible at the loop
 				names, typs, err := g.localsFor(cl.Expr, ls, fd, info, c)
@@ -1169,6 +1181,16 @@ func (g *genCtx) localsFor(expr string, loop ast.Stmt, fd *ast.FuncDecl, info *t
 		_, obj := scope.LookupParent(id, pos)
 		v, ok := obj.(*types.Var)
 		if obj == nil {
+			if _, renamed := c.NameAlias[id]; renamed {
+				// a parameter or captured variable the current tree has under another name
+				for i, pn := range c.ParamNames {
+					if pn == id {
+						names = append(names, id)
+						typs = append(typs, c.ParamTypes[i])
+					}
+				}
+				continue
+			}
 			// not a name of the current tree: if the contract was bound to a local of that name when it
 			// was written (bindings.json), a renamed local is found again by its type and ordinal
 			if lb, ok := recordedLocal(c, id); ok {
@@ -1178,6 +1200,9 @@ func (g *genCtx) localsFor(expr string, loop ast.Stmt, fd *ast.FuncDecl, info *t
 				c.LocalAlias[id] = lb
 				names = append(names, id)
 				typs = append(typs, lb.GoType)
+				for ip, nm := range lb.Imports {
+					g.imports[ip] = nm
+				}
 			}
 			continue
 		}
@@ -1311,5 +1336,8 @@ func (g *genCtx) sigFromLit(c *Contract, fd *ast.FuncDecl, lit *ast.FuncLit) err
 		c.ResultNames = append(c.ResultNames, n)
 		c.ResultTypes = append(c.ResultTypes, g.typeStr(r.Type()))
 	}
+	// Captured keeps the names of the current tree (the verifier finds the cells by them); the clause
+	// functions take the recorded names, position by position, so a renamed captured variable keeps its contract
+	applyRecordedNames(c)
 	return nil
 }
